@@ -19,10 +19,20 @@ RULE_PURE = ('pure part: one partitioner instance per case from NewHashPartition
              'calls the hasher factory once per partitioner. Non-trivial: a keyed call whose hash has the top bit set, or a keyed call with n not '
              'a power of two, or a custom hasher / custom fallback option in play; distinct = hash of the case.')
 
+RULE_ROUTING = (' || routing part: the real AsyncProducer against the simulated cluster (1-3 brokers, 1-2 topics x 1-4 partitions) with a drawn, static subset of '
+                'leaderless partitions (none / some / all of a topic), partitioner manual / hash / reference hash / round-robin / random / a misbehaving custom one '
+                '(returns -1, n, n+5, 2^30, MinInt32 or an error per message) behind a recording wrapper, keyed and keyless messages. Oracle: the partitioner is consulted '
+                'exactly once per message and offered all partitions (consistency-requiring: manual, keyed hash) or only the writable ones; the produce request and the outcome '
+                'name partition offered[choice]; out-of-range choice => ErrInvalidPartition, partitioner error => that error, nothing offered => ErrLeaderNotAvailable, '
+                'leaderless target => an error: each without any broker receiving the message. Non-trivial: a leaderless subset, a hash partitioner or the misbehaving one.')
+
 CHECK = {'pkg': '.',
  'parts': [{'name': 'pure', 'test': 'TestVF_C17_Pure', 'memlimit_gb': 8,
-            'quick': {'shards': 4, 'checks': 25000}, 'thorough': {'shards': 16, 'checks': 500000}}],
- 'rule': RULE_PURE,
+            'quick': {'shards': 4, 'checks': 25000}, 'thorough': {'shards': 16, 'checks': 500000}},
+           {'name': 'routing', 'test': 'TestVF_C17_Routing',
+            'quick': {'shards': 8, 'checks': 150}, 'thorough': {'shards': 16, 'checks': 10000}}],
+ 'sim': True,
+ 'rule': RULE_PURE + RULE_ROUTING,
  'assumptions': ['pure part: the harness recomputes FNV-1a / FNV-1 itself (cross-checked against hash/fnv on every keyed call); results of the '
                  'built-in random partitioner (uncontrolled RNG inside sarama) are judged for range only',
                  'pure part: RequiresConsistency() of the random, round-robin and manual partitioners is not documented and is recorded, not judged',
